@@ -76,10 +76,20 @@ def derived_cases(rng, m, ctx):
         lo = int(rng.integers(0, T))
         hi = int(rng.integers(lo, T))
         dv = [ratx(float(a.content[t][0].dvalue)) if a.content[t] is not None else '0' for t in range(T)]
+        # a stored plateau range (set_prange) is what plateau() uses when called without a range - and only then
+        stored = None
+        if rng.random() < 0.6:
+            plo = int(rng.integers(0, T))
+            stored = [plo, int(rng.integers(plo, T))]
+            a.set_prange(stored)
         for method in ('fit', 'avg'):
             r = _call(lambda: a.plateau([lo, hi], method=method))
-            cases.append({'id': '%s-plateau-%s-%d-%d-%s' % (m['id'], method, lo, hi, kind), 'ev': 'derived', 'what': 'plateau', 'variant': method,
-                          'method': method, 'lo': lo, 'hi': hi, 'dv': dv, 'a': pcorr(a), 'n': NS, 'res': pres(r)})
+            cases.append({'id': '%s-plateau-%s-%d-%d-%s%s' % (m['id'], method, lo, hi, kind, '-stored' if stored else ''), 'ev': 'derived', 'what': 'plateau',
+                          'variant': method, 'method': method, 'lo': lo, 'hi': hi, 'dv': dv, 'a': pcorr(a), 'n': NS, 'res': pres(r)})
+            if stored:
+                r = _call(lambda: a.plateau(method=method))
+                cases.append({'id': '%s-plateau-%s-prange-%d-%d-%s' % (m['id'], method, stored[0], stored[1], kind), 'ev': 'derived', 'what': 'plateau',
+                              'variant': method, 'method': method, 'lo': stored[0], 'hi': stored[1], 'dv': dv, 'a': pcorr(a), 'n': NS, 'res': pres(r)})
     for kind, variants in (('cosh', ('cosh', 'periodic')), ('sinh', ('sinh',))):
         if T < 4:
             continue
